@@ -78,7 +78,9 @@ def remove_unused_self_cls(source: str) -> str:
                     lineno=funcdef.lineno - 1,
                     col_offset=funcdef.col_offset,
             ),)
-            args = funcdef.args.posonlyargs or funcdef.args.args
+            funcdef_copy.args = copy.deepcopy(funcdef.args)  # The parsed tree is cached
+            funcdef_copy.body = copy.deepcopy(funcdef.body)
+            args = funcdef_copy.args.posonlyargs or funcdef_copy.args.args
             if args:
                 del args[0]
             if decorator == "classmethod":
@@ -222,7 +224,8 @@ def fix_unconventional_class_definitions(source: str) -> str:
 
     {{ClassName}}.{{attr}} = {{value}}
     """
-    template = core.compile_template(template)
+    template = copy.copy(core.compile_template(template))  # Compiled templates are cached
+    template[0] = copy.copy(template[0])
     template[0].bases = list
     template[0].decorator_list = list
 
